@@ -703,7 +703,14 @@ func (g *gctx) forStmt() []*Stmt {
 		g.prog.tag("for3")
 		bound := &Expr{K: "lit", N: 1 + g.draw(3, "bound")}
 		if g.pct(40, "argbound") {
-			if vs := g.intVars(); len(vs) > 0 {
+			// the bound must not mention the name of the counter: inside the header it would denote the counter
+			var vs []vinfo
+			for _, v := range g.intVars() {
+				if v.name != i {
+					vs = append(vs, v)
+				}
+			}
+			if len(vs) > 0 {
 				v := vs[g.draw(len(vs), "bv")]
 				bound = &Expr{K: "bin", Op: "%", L: &Expr{K: "var", Name: v.name, T: v.typ}, R: lit(4)}
 			}
@@ -801,6 +808,7 @@ type collSpec struct {
 var collTable = []collSpec{
 	{"string", `"héy"`, "int", "rune", 3},
 	{"string", `"a\xffb"`, "int", "rune", 3},
+	{"string", `"\uFFFDz"`, "int", "rune", 2},
 	{"string", `""`, "int", "rune", 0},
 	{"slice", `[]int{4, 5, 6}`, "int", "int", 3},
 	{"slice", `[]string{"p", "q"}`, "int", "string", 2},
